@@ -127,10 +127,10 @@ func genC15(rt *rapid.T) C15Case {
 	c.Main = genFileState(rt, "main")
 	c.Personal = genFileState(rt, "personal")
 	c.Backup = genFileState(rt, "backup")
-	c.Cfg.Attempts = rapid.SampledFrom([]int{-1, 0, 1, 2, 3, 3, 4, 5}).Draw(rt, "attempts")
+	c.Cfg.Attempts = rapid.SampledFrom([]int{-1, 0, 1, 2, 3, 3, 4, 5, 8, 13, 40}).Draw(rt, "attempts")
 	c.Cfg.BaseNS = rapid.SampledFrom([]int64{0, int64(time.Millisecond), int64(100 * time.Millisecond)}).Draw(rt, "base")
-	c.Cfg.Factor = rapid.SampledFrom([]float64{1, 1.5, 2, 10}).Draw(rt, "factor")
-	c.Cfg.CapNS = rapid.SampledFrom([]int64{0, int64(50 * time.Millisecond), int64(5 * time.Second), c.Cfg.BaseNS / 2}).Draw(rt, "cap")
+	c.Cfg.Factor = rapid.SampledFrom([]float64{1, 1.5, 2, 2, 10, 1000, 1e6, 1e30}).Draw(rt, "factor")
+	c.Cfg.CapNS = rapid.SampledFrom([]int64{0, int64(50 * time.Millisecond), int64(5 * time.Second), c.Cfg.BaseNS / 2, int64(1000 * time.Hour)}).Draw(rt, "cap")
 	if rapid.IntRange(0, 59).Draw(rt, "cli") == 30 {
 		c.CLI = true
 		c.Cfg = defaultCfg()
